@@ -17,6 +17,10 @@ fn main() {
     if args.prop != "probe" {
         util::silence_stderr();
     }
+    // Hooks on the worker's main thread: bounds assertions before every unchecked VM access
+    // (so that a layout defect is a tagged panic attributed to the case, not heap corruption
+    // of the worker) and a generous logical instruction budget per dsp call.
+    util::hooks_default();
     let mut out = Out::new(args.out.as_deref());
     match args.prop.as_str() {
         "probe" => props::probe::main(&args),
